@@ -218,6 +218,13 @@ func parseRangeWithoutLength(s string) ([]ByteRange, error) {
 			if i < 0 || err != nil {
 				return nil, errors.New("invalid range")
 			}
+			if i == 0 {
+				// A suffix of zero bytes ("-0") selects nothing, whatever the size of
+				// the file. It cannot be told apart from "0-" once negated (-0 == 0),
+				// so skip it, as parseRange does, and let the first range that can
+				// be served decide where the backend positions the reader.
+				continue
+			}
 			r.From = -i
 		} else {
 			i, err := strconv.ParseInt(start, 10, 64)
